@@ -420,6 +420,12 @@ def audit_cases():
     lib("aud_layer_numbers_edge", [lay("c0", es)], layers=TE)
     lib("aud_layer_numbers_edge", [lay("c0", es[:3]), {"name": "ab", "layout": None, "abs": {"name": "ab", "outline": [[0, 0], [9, 0], [9, 9], [0, 9]],
          "ports": [{"net": "p", "shapes": [[0, [R(1, 1)]]]}], "blockages": []}}], layers=TE)
+    # 2b. overlapping shapes on two layers whose NUMBERS agree modulo 256 / 2^12 / 2^15: the label of a named shape lies inside
+    # the shape of the other layer too, which must not pick the net up (nor lose its own)
+    for na, nb in ((44, 300), (1, 257), (0, 256), (5, -251), (255, -1), (0, -32768), (32767, -1), (12, 4108)):
+        TC = [{"num": na, "name": None, "pairs": [[0, "Drawing"], [1, "Label"]]}, {"num": nb, "name": None, "pairs": [[0, "Drawing"], [1, "Label"]]}]
+        lib("aud_layers_congruent", [lay("c0", [el(R(0, 0, 10, 6), "a", 0), el(R(2, 1, 6, 4), None, 1), el({"P": [[[0, 3], [10, 3]], 2]}, None, 1)])], layers=TC)
+        lib("aud_layers_congruent", [lay("c0", [el(R(0, 0, 10, 6), "a", 0), el(R(0, 0, 10, 6), "b", 1)])], layers=TC)
     # 3. named polygons spanning most of the i32 range (Polygon::contains multiplies coordinate differences: 2^32 * 2^32)
     B = 2000000000
     for P in ([[-B, -B], [B, -B], [B, -B + 10], [-B + 10, -B + 10], [-B + 10, B], [-B, B]],                                  # L, centre outside
